@@ -19,6 +19,9 @@ FAMILIES = (
     "rastrigin",
     "styblinski",
 )
+# only used where exact ties of the objective are the point (C03): restart comparisons "up to
+# rounding" are meaningless on an objective that is itself rounded to single precision
+QUANTISED = ("quantised",)
 CONVEX = ("qp", "quartic", "softplus", "badscale")
 BOXES = ("none", "boxed", "mixed", "tight", "degenerate")
 STARTS = ("interior", "face", "vertex")
@@ -116,6 +119,21 @@ def _make_fg(family, n, rng):
             return dscale * (a @ y - b)
 
         return f, g, xs / dscale
+    if family == "quantised":
+        # a smooth convex function whose value is delivered in single precision: consecutive trial
+        # points frequently give exactly equal objective values (ties)
+        cond = float(10.0 ** rng.uniform(0.0, 2.0))
+        a = _spd(rng, n, cond)
+        xs = rng.uniform(-2.0, 2.0, size=n)
+        b = a @ xs
+
+        def f(x):
+            return float(np.float32(0.5 * x.dot(a @ x) - b.dot(x)))
+
+        def g(x):
+            return a @ x - b
+
+        return f, g, xs
     if family == "rosen":
         def f(x):
             if x.size == 1:
